@@ -26,3 +26,10 @@ From RS Require Import Schedule SchedInv SchedStruct PipelineSched PipelineSched
 Theorem C05_pipeline_result_valid : forall i perm nw, load i perm = Ok nw -> stmt_pipeline_valid nw.
 Proof. exact pipeline_valid_loaded. Qed.
 Print Assumptions C05_pipeline_result_valid.
+
+(** the JSON rendered from a schedule with exact cycles whose vehicles end where their successors start passes
+    check_C05 *)
+From RS Require Import Render RenderStmts RenderFacts1.
+Theorem C05_rendered_cycles : forall nw, stmt_render_C05 nw.
+Proof. exact render_C05. Qed.
+Print Assumptions C05_rendered_cycles.
